@@ -55,25 +55,26 @@ Section Ext.
   (** Flate: whatever libflate's encoder produces, if libflate's zlib decoder inverts it
       (premise), flate_decode with the parameters the writer uses returns the input. *)
   Theorem enc_dec_flate : (forall y, inflate_zlib (deflate_zlib y) = Ok y) ->
-    forall p x, (as_usize (p_predictor p) <= png_threshold) ->
-      as_usize (p_columns p) * as_usize (p_colors p) < 18446744073709551616 ->
+    forall p x, (p_predictor p < png_from)%Z -> p_predictor p <> tiff_pred ->
       exists e, enc (FFlate p) x = Ok e /\ dec (FFlate p) e = Ok x.
   Proof.
-    intros Hrt p x Hp Hs. exists (deflate_zlib x). split; [reflexivity|].
-    unfold dec, decode, flate_decode. rewrite Hrt.
-    assert (18446744073709551616 <=? as_usize (p_columns p) * as_usize (p_colors p) = false) as E
-      by (apply N.leb_gt; exact Hs).
-    rewrite E. unfold unpredict. rewrite E.
-    apply N.leb_le in Hp. rewrite Hp. reflexivity.
+    intros Hrt p x Hp Ht. exists (deflate_zlib x). split; [reflexivity|].
+    unfold dec, decode, flate_decode. rewrite Hrt. unfold unpredict.
+    destruct (Z.leb_spec png_from (p_predictor p)); [lia|].
+    destruct (Z.eqb_spec (p_predictor p) tiff_pred); [contradiction|reflexivity].
   Qed.
 
   (** LZW: encoding is offered for EarlyChange 0 only; there the decoder selected by the same
       parameters is weezl's plain decoder, assumed (premise) to invert weezl's encoder. *)
   Theorem enc_dec_lzw : (forall y e, lzw_enc y = Ok e -> lzw_dec false e = Ok y) ->
-    forall p x e, p_early p = 0%Z -> enc (FLzw p) x = Ok e -> dec (FLzw p) e = Ok x.
+    forall p x e, p_early p = 0%Z -> (p_predictor p < png_from)%Z -> p_predictor p <> tiff_pred ->
+      enc (FLzw p) x = Ok e -> dec (FLzw p) e = Ok x.
   Proof.
-    intros Hrt p x e Hp E. unfold enc, encode, lzw_encode in E. rewrite Hp in E. cbn in E.
-    unfold dec, decode, lzw_decode. rewrite Hp. cbn. apply Hrt. exact E.
+    intros Hrt p x e Hp Hq Ht E. unfold enc, encode, lzw_encode in E. rewrite Hp in E. cbn in E.
+    unfold dec, decode, lzw_decode. rewrite Hp. change (negb (0 =? 0)%Z) with false.
+    rewrite (Hrt _ _ E). cbn [bind]. unfold unpredict.
+    destruct (Z.leb_spec png_from (p_predictor p)); [lia|].
+    destruct (Z.eqb_spec (p_predictor p) tiff_pred); [contradiction|reflexivity].
   Qed.
 
   (** with any other EarlyChange the encoder refuses (an error value, not a wrong answer) *)
